@@ -132,4 +132,15 @@ theorem C13_replacement_carries_the_node (reorder : Bool) (t : ANode) (d : Twin.
 theorem C13_total (cfg : Config) (wd : String → Nat) (src : String) (root : ENode) (a b : Nat) :
     ∃ r, formatRange cfg wd src root a b = r := ⟨_, rfl⟩
 
+/-- The premises are satisfiable: in `#(x)` (bytes 0–4) the request 2..3 is covered by the identifier
+`x` at offset 2, a node of the tree, with nothing inside it. -/
+def exampleRangeTree : ENode :=
+  .inner .markup [.leaf .hash "#" false, .inner .parenthesized [.leaf .leftParen "(" false, .leaf .ident "x" false, .leaf .rightParen ")" false] false] false
+example : ∃ n mode, cover 2 3 exampleRangeTree 0 .markup = some (n, 2, mode) ∧ n.kind = .ident := by
+  refine ⟨.leaf .ident "x" false, .markup, ?_, rfl⟩
+  have h1 : "#".utf8ByteSize = 1 := by decide
+  have h2 : "(".utf8ByteSize = 1 := by decide
+  have h3 : "x".utf8ByteSize = 1 := by decide
+  simp [exampleRangeTree, cover, coverL, modeOfKind, isCoverKind, ENode.len, Kind.isExpr, h1, h2, h3]
+
 end Typstyle
